@@ -166,7 +166,49 @@ func c10r8(p *model.Prog, r *report.Result) {
 			}
 		}
 	}
+	// the same integer formatted without Sprintf: strconv.Itoa / FormatInt / AppendInt in a
+	// function that also holds the tag text
+	for _, fn := range lalFuncsIn(p, "pkg/hls") {
+		hasTag := false
+		model.EachInstr(fn, func(in ssa.Instruction) {
+			for _, op := range in.Operands(nil) {
+				if *op == nil {
+					continue
+				}
+				if cs, ok := model.ConstString(*op); ok && strings.Contains(cs, "#EXT-X-TARGETDURATION:") && !strings.Contains(cs, "#EXT-X-TARGETDURATION:%d") {
+					hasTag = true
+				}
+			}
+		})
+		if !hasTag {
+			continue
+		}
+		for _, ci := range model.AllCalls(fn) {
+			o := model.CalleeObj(ci.Common())
+			if o == nil || o.Pkg() == nil || o.Pkg().Path() != "strconv" {
+				continue
+			}
+			args := ci.Common().Args
+			switch o.Name() {
+			case "Itoa", "FormatInt":
+				checkInt(fn, stripIntConv(args[0]), ci, 0)
+			case "AppendInt":
+				checkInt(fn, stripIntConv(args[1]), ci, 0)
+			}
+		}
+	}
 	if n < 3 {
 		r.Bad("C10.R8", "floor", "", fmt.Sprintf("only %d target-duration conversions found (live playlist, record playlist new/updated)", n))
+	}
+}
+
+// stripIntConv removes integer-to-integer conversions (int64(x) for FormatInt).
+func stripIntConv(v ssa.Value) ssa.Value {
+	for {
+		c, ok := v.(*ssa.Convert)
+		if !ok || !isInteger(c.X.Type()) {
+			return v
+		}
+		v = c.X
 	}
 }
